@@ -603,12 +603,37 @@ func runC02(res *Result, d *Driver, tier string, seed uint64) {
 	}
 	for i := 0; i < nTh && fdNum > 0; i++ {
 		dirT := f.dirs[rng.Intn(len(f.dirs))] // the thread's directory
-		dirM := f.dirs[rng.Intn(len(f.dirs))] // the directory the main thread opens under the same number
-		relT, relM, relF := f.validPath(rng, dirT), f.validPath(rng, work), f.validPath(rng, dirM)
-		relFT := f.validPath(rng, dirT)
-		if strings.ContainsAny(relT+relM+relF+relFT, " ;") || strings.HasPrefix(relT, "/") || strings.HasPrefix(relM, "/") || strings.HasPrefix(relF, "/") || strings.HasPrefix(relFT, "/") || dirT == work {
+		dirM := f.dirs[rng.Intn(len(f.dirs))] // the directory the main thread opens under the same descriptor number
+		if dirT == work {
 			continue
 		}
+		dT, err1 := os.Open(dirT)
+		dM, err2 := os.Open(dirM)
+		if err1 != nil || err2 != nil {
+			continue
+		}
+		// relative names that the kernel resolves from the directory they will be used in
+		pick := func(dirfd int, dir string) (string, string) {
+			for k := 0; k < 40; k++ {
+				r := f.validPath(rng, dir)
+				if r == "" || strings.ContainsAny(r, " ;") || strings.HasPrefix(r, "/") {
+					continue
+				}
+				if w, ok := kernelResolve(dirfd, r); ok {
+					return r, w
+				}
+			}
+			w, _ := kernelResolve(dirfd, ".")
+			return ".", w
+		}
+		relT, wT := pick(int(dT.Fd()), dirT)
+		relFT, wFT := pick(int(dT.Fd()), dirT)
+		relM, wM := pick(int(workH.Fd()), work)
+		relF, wF := pick(int(dM.Fd()), dirM)
+		wdT, _ := kernelResolve(int(dT.Fd()), ".")
+		wdM, _ := kernelResolve(int(dM.Fd()), ".")
+		dT.Close()
+		dM.Close()
 		// t=0 thread: private fs + files, chdir dirT, open dirT (-> fdNum in its table); t=150 main: open dirM (-> fdNum in
 		// its table); t=300 thread: open(relT) and openat(fdNum, relFT); t=450 main: open(relM) and openat(fdNum, relF)
 		script := fmt.Sprintf("thread; sys 272 0x600; sys 80 s:%s; sys 257 fdcwd32 s:%s 0x10000 0; sleep 300; sys 257 fdcwd64 s:%s 0 0; sys 257 %d s:%s 0 0; endthread; "+
@@ -618,21 +643,8 @@ func runC02(res *Result, d *Driver, tier string, seed uint64) {
 		r, out := runPtraceProbe(RunSpec{Script: script, Filter: tracingFilter(), Handler: h, WorkDir: work})
 		res.Case("thread-private "+script, true, "traced-thread-private")
 		got := stripPrefixCalls(h.calls, baseline)
-		dT, err1 := os.Open(dirT)
-		dM, err2 := os.Open(dirM)
-		if err1 != nil || err2 != nil {
-			continue
-		}
-		wT, ok1 := kernelResolve(int(dT.Fd()), relT)
-		wFT, ok2 := kernelResolve(int(dT.Fd()), relFT)
-		wM, ok3 := kernelResolve(int(workH.Fd()), relM)
-		wF, ok4 := kernelResolve(int(dM.Fd()), relF)
-		wdT, ok5 := kernelResolve(int(dT.Fd()), ".")
-		wdM, ok6 := kernelResolve(int(dM.Fd()), ".")
-		dT.Close()
-		dM.Close()
-		if !(ok1 && ok2 && ok3 && ok4 && ok5 && ok6) || strings.Count(out, "sys 272 = 0 0") != 1 || strings.Count(out, fmt.Sprintf("sys 257 = %d 0", fdNum)) != 2 {
-			continue // the program did not get the layout this case is about (a name does not resolve, another descriptor number)
+		if strings.Count(out, "sys 272 = 0 0") != 1 || strings.Count(out, fmt.Sprintf("sys 257 = %d 0", fdNum)) != 2 {
+			continue // the program did not get the layout this case is about (another descriptor number)
 		}
 		// the chdir is asked as a stat/read of the directory by some policies; compare the open calls only: every expected
 		// (class, path) must have been presented, and nothing may have been presented for a path the kernel did not touch
